@@ -134,8 +134,8 @@ def h_canon9(rp, l, o):
 
 
 def h_inversion(rp, l, o):
-    sig = dict(forms_all_B=set(forms_of(rp.psi)) == {'B'})
-    rp.next_sig = sig
+    sig = dict(forms_all_B=set(forms_of(rp.psi)) == {'B'},
+               segment_boundaries_set=getattr(rp.psi, 'segment_boundaries', (None, None))[0] is not None)
     hm.quiet(rp.psi.spatial_inversion)
     rp.sign_free = rp.sign_free or rp.jw_seen
     return dict(sig=sig)
@@ -143,7 +143,6 @@ def h_inversion(rp, l, o):
 
 def h_roll(rp, l, o):
     sig = dict(forms_all_B=set(forms_of(rp.psi)) == {'B'})
-    rp.next_sig = sig
     hm.quiet(rp.psi.roll_mps_unit_cell, l['shift'])
     return dict(sig=sig)
 
@@ -185,9 +184,9 @@ def check(ctx):
                'float64 is exact on Gaussian dyadic rationals of this size',
                'documented caveat of apply_JW_string_left_of_virt_leg: a global sign may be lost once B tensors carry a '
                'total charge (comparison up to a global sign after the first Jordan-Wigner operator)')
-    ctx.exhaustive = not quick
+    ctx.exhaustive = False   # instances are a seeded sample of the case catalogue; operations on them are enumerated exhaustively
     t0 = time.time()
-    n1 = mc_and_replay(ctx, 'wide', cfg(seed, 211 if quick else 29, 4, 1), spec=SPEC, handlers=HANDLERS, leaf=leaf(1))
+    n1 = mc_and_replay(ctx, 'wide', cfg(seed, 307 if quick else 29, 4, 1), spec=SPEC, handlers=HANDLERS, leaf=leaf(1))
     seq_ops = SEQ_OPS if quick else ALL_OPS
     n2 = mc_and_replay(ctx, 'seq2', cfg(seed, 4001 if quick else 601, 3, 2, ops=seq_ops), spec=SPEC, handlers=HANDLERS, leaf=leaf(2))
     n3 = 0
